@@ -14,6 +14,32 @@ import "sync"
 // until the scheduler resumes it; a thread with enabled != nil is only resumed when enabled() holds.
 var VerifYield func(enabled func() bool)
 
+// VerifLockEvent, when set, is told about every lock operation the store performs while a schedule is being
+// explored: the shard the mutex guards (-1: not a shard mutex), write or read mode, acquire (after it succeeded)
+// or release (before it happens).  The driver turns these into the lock trace judged against Model/Locks.v.
+var VerifLockEvent func(shard int, write, acquire bool)
+
+// verifShardOf maps a shard mutex to its index (the stores the driver builds register themselves).
+var verifStores []*peerStore
+
+func VerifRegister(ps interface{}) { verifStores = append(verifStores, ps.(*peerStore)) }
+func VerifUnregisterAll()          { verifStores = nil }
+
+func (m *verifRWMutex) event(write, acquire bool) {
+	if VerifLockEvent == nil {
+		return
+	}
+	for _, ps := range verifStores {
+		for i, sh := range ps.shards {
+			if &sh.verifRWMutex == m {
+				VerifLockEvent(i, write, acquire)
+				return
+			}
+		}
+	}
+	VerifLockEvent(-1, write, acquire)
+}
+
 type verifRWMutex struct {
 	real    sync.RWMutex // used whenever no schedule is being explored (ordinary concurrent use)
 	readers int
@@ -30,6 +56,7 @@ func (m *verifRWMutex) Lock() {
 		panic("verif: Lock acquired while held (scheduler bug or lock used outside a schedule)")
 	}
 	m.writer = true
+	m.event(true, true)
 }
 
 func (m *verifRWMutex) Unlock() {
@@ -40,6 +67,7 @@ func (m *verifRWMutex) Unlock() {
 	if !m.writer {
 		panic("verif: Unlock of unlocked mutex")
 	}
+	m.event(true, false)
 	m.writer = false
 	VerifYield(nil)
 }
@@ -54,6 +82,7 @@ func (m *verifRWMutex) RLock() {
 		panic("verif: RLock acquired while write-locked")
 	}
 	m.readers++
+	m.event(false, true)
 }
 
 func (m *verifRWMutex) RUnlock() {
@@ -64,6 +93,7 @@ func (m *verifRWMutex) RUnlock() {
 	if m.readers <= 0 {
 		panic("verif: RUnlock of unlocked mutex")
 	}
+	m.event(false, false)
 	m.readers--
 	VerifYield(nil)
 }
